@@ -355,6 +355,57 @@ pub fn cases(quick: bool) -> Vec<Snip> {
             }));
         }
     }
+    // the string (and the counts) taken from array elements with variable subscripts: a matrix cell G$(R%, C%) whose
+    // neighbours G$(C%, R%), G$(R%, R%), G$(C%, C%) hold other strings, a vector cell V$(I% + 1), counts from K%(C%, R%)
+    for (si, s) in ["aB a", " Ba", "aaB"].iter().enumerate() {
+        for (r, c) in [(1i64, 2i64), (2, 0), (0, 3)] {
+            let fill = move |b: &mut B| -> Vec<Stmt> {
+                let cell = |i: i64, j: i64| Expr::Index("G$".into(), vec![num(i), num(j)]);
+                vec![
+                    b.assign(var("R%"), num(r)),
+                    b.assign(var("C%"), num(c)),
+                    b.assign(var("I%"), num(r)),
+                    b.assign(cell(c, r), st("WRONG-cr")),
+                    b.assign(cell(r, r), st("WRONG-rr")),
+                    b.assign(cell(c, c), st("WRONG-cc")),
+                    b.assign(cell(r, c), st(s)),
+                    b.assign(Expr::Index("V$".into(), vec![num(r)]), st("WRONG-v")),
+                    b.assign(Expr::Index("V$".into(), vec![num(r + 1)]), st(s)),
+                    b.assign(Expr::Index("K%".into(), vec![num(r), num(c)]), num(7)),
+                    b.assign(Expr::Index("K%".into(), vec![num(c), num(r)]), num(2)),
+                ]
+            };
+            let g = || Expr::Index("G$".into(), vec![var("R%"), var("C%")]);
+            let v = || Expr::Index("V$".into(), vec![bin(BinOp::Add, var("I%"), num(1))]);
+            let k = || Expr::Index("K%".into(), vec![var("C%"), var("R%")]);
+            let calls: Vec<(&str, Expr)> = vec![
+                ("LEFT$(G$(R%, C%), 2)", builtin("LEFT$", vec![g(), num(2)])),
+                ("RIGHT$(G$(R%, C%), K%(C%, R%))", builtin("RIGHT$", vec![g(), k()])),
+                ("MID$(G$(R%, C%), K%(C%, R%))", builtin("MID$", vec![g(), k()])),
+                ("MID$(G$(R%, C%), 2, K%(C%, R%))", builtin("MID$", vec![g(), num(2), k()])),
+                ("INSTR(G$(R%, C%), \"B\")", builtin("INSTR", vec![g(), st("B")])),
+                ("INSTR(K%(C%, R%), G$(R%, C%), \"a\")", builtin("INSTR", vec![k(), g(), st("a")])),
+                ("INSTR(V$(I% + 1), G$(R%, C%))", builtin("INSTR", vec![v(), g()])),
+                ("UCASE$(G$(R%, C%))", builtin("UCASE$", vec![g()])),
+                ("LCASE$(V$(I% + 1))", builtin("LCASE$", vec![v()])),
+                ("LTRIM$(G$(R%, C%))", builtin("LTRIM$", vec![g()])),
+                ("RTRIM$(G$(R%, C%))", builtin("RTRIM$", vec![g()])),
+                ("LEN(G$(R%, C%) + V$(I% + 1))", builtin("LEN", vec![bin(BinOp::Add, g(), v())])),
+                ("LEFT$(G$(R%, C%), 2) + MID$(G$(R%, C%), 3)", bin(BinOp::Add, builtin("LEFT$", vec![g(), num(2)]), builtin("MID$", vec![g(), num(3)]))),
+                ("STRING$(K%(C%, R%), G$(R%, C%))", builtin("STRING$", vec![k(), g()])),
+            ];
+            for (label, e) in calls {
+                out.push(snip(format!("array-element arguments #{} ({}, {}): {}", si, r, c, label), move |b| {
+                    let mut stmts = fill(b);
+                    stmts.push(bracket(b, e));
+                    // the elements themselves are unchanged by the call
+                    stmts.push(bracket(b, Expr::Index("G$".into(), vec![num(r), num(c)])));
+                    stmts.push(bracket(b, Expr::Index("G$".into(), vec![num(c), num(r)])));
+                    stmts
+                }));
+            }
+        }
+    }
     // VAL(STR$(k)) = k
     let ks: Vec<i64> = if quick {
         (-32768i64..=32767).filter(|k: &i64| k % 13 == 0 || k.abs() >= 32760 || k.abs() <= 20).collect()
